@@ -126,7 +126,7 @@ func Label(r *rand.Rand, level int) string {
 	case 0:
 		return Pick(r, []string{"a", "b", "foo", "bar", "web", "db", "x1"})
 	case 1:
-		return Pick(r, []string{"a", "foo", "A", "a b", "a.b", "a-b", "1", "", "true", "for", "é"})
+		return Pick(r, []string{"a", "foo", "A", "a b", "a.b", "a-b", "1", "", "true", "for", "é", "b", "c", "b.c", "a.b.c"})
 	}
 	if Chance(r, 0.5) {
 		return Pick(r, []string{"a", "foo", "a$b", "100%", "$${x}", "${x}", "%{y}", "a\"b", "a\\b", "", "A", "tab\there", "nl\nx", "$", "%", "é", "𝒳", "a b", "for", "null", "~"})
@@ -178,7 +178,8 @@ func (fl *FileLayout) gap(canon string) string {
 		opts = append(opts, "")
 	}
 	if fl.Comments {
-		opts = append(opts, " /* c */ ", "/**/")
+		// (an inline comment is whitespace even when it spans several lines)
+		opts = append(opts, " /* c */ ", "/**/", " /* two\n lines */ ", "/*\n*/")
 	}
 	return Pick(fl.R, opts)
 }
